@@ -39,6 +39,21 @@ def _explore_total(ctx, v, label, body, mk_args, maxlen, loop_bound, no_inline=(
                 v.fail("%s: panic reachable: %s (buffer length %s)" % (label, o.info, wit["len"]), wit)
                 if v.replay_rust is None and isinstance(wit.get("buffer"), list):
                     v.replay_rust = _replay(label, wit["buffer"])
+        # allocation bound: no capacity request may exceed a small multiple of the input length, on any path
+        for e in o.events:
+            if e[0] != "alloc":
+                continue
+            cnt = e[2][0]
+            big = z3.UGT(z3.ZeroExt(64, cnt.bv) if cnt.bv.size() == 64 else z3.ZeroExt(128 - cnt.bv.size(), cnt.bv), z3.ZeroExt(64, buf.len.bv) * 64 + 4096)
+            r, m = ex.model_for(o.pc, big)
+            v.queries += 1
+            if r == z3.sat:
+                wit = model_values(m, dict(buffer=buf))
+                wit["len"] = len(wit["buffer"]) if isinstance(wit.get("buffer"), list) else None
+                wit["elements_requested"] = m.eval(cnt.bv, model_completion=True).as_long()
+                v.fail("%s: a capacity of %d elements (%s) is requested for a buffer of %s bytes: allocation not bounded by a small multiple of the input length" % (label, wit["elements_requested"], e[1][:60], wit["len"]), wit)
+                if v.replay_rust is None and isinstance(wit.get("buffer"), list):
+                    v.replay_rust = _replay_alloc(label, wit["buffer"])
         if o.kind == "return":
             v.queries += 1
             v.unsat += 1
@@ -75,6 +90,43 @@ fn %s() {
     // decoder must return Ok or Err for this buffer; a panic fails the test
     let buf: Vec<u8> = vec![%s];
     %s
+}
+""" % (name, ", ".join(str(x) for x in data), call)
+    return (name, src)
+
+
+def _replay_alloc(label, data):
+    key = label.split(" ")[0]
+    call = REPLAY_CALL.get(key)
+    if call is None:
+        return None
+    name = "replay_c10_alloc_" + re.sub(r"\W+", "_", key).lower()
+    src = """
+// pass-through allocator that records the largest single request made on this thread
+struct Peak;
+thread_local! { static MAX_REQ: std::cell::Cell<usize> = std::cell::Cell::new(0); }
+unsafe impl std::alloc::GlobalAlloc for Peak {
+    unsafe fn alloc(&self, l: std::alloc::Layout) -> *mut u8 {
+        let _ = MAX_REQ.try_with(|m| if l.size() > m.get() { m.set(l.size()) });
+        std::alloc::System.alloc(l)
+    }
+    unsafe fn dealloc(&self, p: *mut u8, l: std::alloc::Layout) { std::alloc::System.dealloc(p, l) }
+    unsafe fn realloc(&self, p: *mut u8, l: std::alloc::Layout, n: usize) -> *mut u8 {
+        let _ = MAX_REQ.try_with(|m| if n > m.get() { m.set(n) });
+        std::alloc::System.realloc(p, l, n)
+    }
+}
+#[global_allocator]
+static A: Peak = Peak;
+
+#[test]
+fn %s() {
+    let buf: Vec<u8> = vec![%s];
+    MAX_REQ.with(|m| m.set(0));
+    // a failed huge allocation aborts or panics: either way this test does not pass
+    %s
+    let peak = MAX_REQ.with(|m| m.get());
+    assert!(peak <= 64 * buf.len() + 4096, "a single allocation of {} bytes was requested for a {} byte buffer", peak, buf.len());
 }
 """ % (name, ", ".join(str(x) for x in data), call)
     return (name, src)
